@@ -170,6 +170,12 @@ fn e13_hashset_algebra(x: A) -> (Vec<i64>, Vec<i64>, usize, bool, bool, bool) { 
 #[derive(Debug)] struct Cell(i64);
 fn e14_ctor_as_fn(x: A) -> (Vec<Wrap>, Vec<i64>, Option<Wrap>) { let a: Vec<Wrap> = x.3.iter().copied().map(Wrap::One).collect(); let b: Vec<Cell> = x.3.iter().copied().map(Cell).collect(); let c = Some(x.0).map(|v| Wrap::Pair(v, x.1)); (a, b.iter().map(|c| c.0 + 1).collect(), c) }
 
+fn e15_binary_search_by(x: A) -> (Result<usize, usize>, Result<usize, usize>, Vec<i64>) { let mut v = x.3.to_vec(); v.sort(); let a = v.binary_search_by(|e| e.cmp(&x.0)); let b = v.binary_search_by_key(&(x.1 * 2), |e| e * 2); let mut w = v.clone(); if let Err(i) = a { w.insert(i, x.0); } (a, b, w) }
+
+struct Countdown { cur: i64, end: i64 }
+impl Iterator for Countdown { type Item = i64; fn next(&mut self) -> Option<i64> { if self.cur <= self.end { None } else { self.cur -= 1; Some(self.cur) } } }
+fn e16_user_iterator(x: A) -> (Option<i64>, Vec<i64>, bool, i64) { let mk = || Countdown { cur: x.0.clamp(-2, 6), end: x.1 }; let mut t = 0; for v in mk() { t += v * v; } (mk().find(|v| v % 2 == 0), mk().map(|v| v * 3).collect(), mk().any(|v| v == 1), mk().sum::<i64>() + t) }
+
 fn main() {
     let avals = [-7i64, -1, 0, 1, 2, 5, 64];
     let bvals = [-3i64, 0, 1, 2];
@@ -191,5 +197,5 @@ fn main() {
          d01_methods, d02_trait_dispatch, d03_dyn, d04_recursion, d05_iter_mut, d06_while_let, d07_sort_cmp, d08_binding_modes, d09_at_patterns, d10_str_cmp, d11_char_ops, d12_write,
          d13_option_mut, d14_shadow_blocks, d15_tuple_struct, d16_array, d17_nested_closures, d18_fold_tuple, d19_early_return_loop, d20_string_api, d21_int_parse_fmt, d22_slices_eq,
          d23_result_chain, d24_vec_of_vec, d25_if_let_chain, d26_wrapping_mix, d27_checked_chain, d28_extend_concat, d29_bool_short_circuit, d30_default_struct,
-         e01_iter_next_then_for, e02_iter_next_twice, e03_try_for_each, e04_iter_by_mut_ref, e05_into_iter_next, e06_chars_next, e07_range_next, e08_peekable, e09_user_fmt, e10_mut_ref_locals, e11_overflow_builtin, e12_neg_min, e13_hashset_algebra, e14_ctor_as_fn);
+         e01_iter_next_then_for, e02_iter_next_twice, e03_try_for_each, e04_iter_by_mut_ref, e05_into_iter_next, e06_chars_next, e07_range_next, e08_peekable, e09_user_fmt, e10_mut_ref_locals, e11_overflow_builtin, e12_neg_min, e13_hashset_algebra, e14_ctor_as_fn, e15_binary_search_by, e16_user_iterator);
 }
